@@ -78,13 +78,20 @@ func init() {
 					}
 				}
 			}
+			// concrete address literals (parsed by the real netip natively) for every record type
+			for i := range kw["rr"] {
+				for lit := 0; lit < 10; lit++ {
+					jobs = append(jobs, Job{Pkg: "rules", Func: "verifC10Literal", Args: []int64{int64(i), int64(lit)}})
+				}
+			}
 			return jobs
 		},
 		Setup: func(e *sym.Engine, st *sym.State, l *sym.Loaded) {
 			setupNetip(e, st, l)
 			e.Ctx["keywords"] = curRun.Natives["keywords"]
 		},
-		MustReach: []string{"c10.accepted", "c10.rejected"},
+		ContractStubs: "netip.ParseAddr on symbolic text returns an arbitrary address; concrete address literals are parsed natively",
+		MustReach: []string{"c10.accepted", "c10.rejected", "c10.literal"},
 		Bounds: map[string]string{
 			"quick":    "short form: 0..5 symbolic bytes over {a,1,.,:,-,;} and {a,A,1,.,-}, 7..8 bytes over the letters of the four keywords; normal form: every response-code keyword and every record-type keyword of the dns tables (plus junk, lower-case and empty) with a short value, and for the nine record types with a value parser a symbolic value of 0..5 bytes over three alphabets (digits, dots, colons, blanks, '=', letters)",
 			"thorough": "short form up to 8 bytes, values up to 8 bytes",
